@@ -35,6 +35,8 @@ pub struct Data {
     pub simple_cardinals: Vec<String>,
     /// groups of cardinals that share one feature bundle (exact-match ties)
     pub tie_groups: Vec<Vec<String>>,
+    /// the diacritic characters of src/diacritics.json
+    pub diacritics: Vec<char>,
 }
 
 pub fn verif_dir() -> String {
@@ -72,6 +74,10 @@ impl Data {
         }
         tie_groups.sort();
         let simple_cardinals = cardinals.iter().filter(|c| c.chars().count() == 1).cloned().collect();
+        let dpath = format!("{}/src/diacritics.json", repo_dir());
+        let dtxt = std::fs::read_to_string(&dpath).unwrap_or_else(|e| harness_error(&format!("read {dpath}: {e}")));
+        let dv: serde_json::Value = serde_json::from_str(&dtxt).unwrap_or_else(|e| harness_error(&format!("parse {dpath}: {e}")));
+        let diacritics: Vec<char> = dv.as_array().map(|a| a.iter().filter_map(|x| x.get("diacrit").and_then(|c| c.as_str()).and_then(|c| c.chars().next())).collect()).unwrap_or_default();
         Data {
             test_rules: cf.test_rules,
             test_words: cf.test_words,
@@ -83,6 +89,7 @@ impl Data {
             cardinals,
             simple_cardinals,
             tie_groups,
+            diacritics,
         }
     }
 }
